@@ -345,6 +345,86 @@ where
             .merge_staged_commit(&self.provider, staged_commit)""", """        let _ = self.storage().create_group_snapshot(&group_id, "before-merge");
         mls_group
             .merge_staged_commit(&self.provider, staged_commit)""")]),
+    ("c01-rollback-without-comparator", ["C01"], [], [(CORE + "messages/error_handling.rs", "                if is_better {\n                    tracing::info!(\"Found better commit for epoch {}. Rolling back.\", msg_epoch);", "                if is_better || msg_epoch > 0 {\n                    tracing::info!(\"Found better commit for epoch {}. Rolling back.\", msg_epoch);")]),
+    ("c01-rollback-target-is-group-epoch", ["C01"], [], [(CORE + "messages/error_handling.rs", """                        self.storage(),
+                        &group.mls_group_id,
+                        msg_epoch,
+                    ) {
+                        Ok(_) => {""", """                        self.storage(),
+                        &group.mls_group_id,
+                        group.epoch,
+                    ) {
+                        Ok(_) => {""")]),
+    ("c01-rollback-skips-message-invalidation", ["C01"], [], [(CORE + "messages/error_handling.rs", """                            let invalidated_messages = self
+                                .storage()
+                                .invalidate_messages_after_epoch(&group.mls_group_id, msg_epoch)
+                                .unwrap_or_default();""", """                            let invalidated_messages: Vec<EventId> = Vec::new();""")]),
+    ("c01-rollback-invalidates-from-epoch-zero", ["C01"], [], [(CORE + "messages/error_handling.rs", """                            let _ = self.storage().invalidate_processed_messages_after_epoch(
+                                &group.mls_group_id,
+                                msg_epoch,
+                            );""", """                            let _ = self.storage().invalidate_processed_messages_after_epoch(
+                                &group.mls_group_id,
+                                0,
+                            );""")]),
+    ("c01-rollback-no-retry-marking", ["C01"], [], [(CORE + "messages/error_handling.rs", """                            for event_id in &messages_needing_refetch {
+                                if self
+                                    .storage()
+                                    .mark_processed_message_retryable(event_id)
+                                    .is_err()
+                                {""", """                            for event_id in &messages_needing_refetch {
+                                if event_id.to_hex().is_empty()
+                                {""")]),
+    ("c01-rollback-no-callback", ["C01"], [], [(CORE + "messages/error_handling.rs", """                                cb.on_rollback(&crate::RollbackInfo {
+                                    group_id: group.mls_group_id.clone(),
+                                    target_epoch: msg_epoch,
+                                    new_head_event: event.id,
+                                    invalidated_messages,
+                                    messages_needing_refetch,
+                                });""", """                                let _ = (cb, invalidated_messages, messages_needing_refetch);""")]),
+    ("c01-rollback-no-reprocess", ["C01"], [], [(CORE + "messages/error_handling.rs", """                            // Recursively call process_message now that state is rolled back.
+                            // This will reload the group and apply the new commit.
+                            return self.process_message(event);""", """                            return Ok(MessageProcessingResult::PreviouslyFailed);""")]),
+    ("c01-snapshot-filed-under-wrapper-ts-now", ["C01", "C07"], [], [(CORE + "messages/commit.rs", """            &event.id,
+            event.created_at.as_secs(),
+        ) {""", """            &event.id,
+            std::time::SystemTime::now().duration_since(std::time::UNIX_EPOCH).map(|d| d.as_secs()).unwrap_or(0),
+        ) {""")]),
+    ("c04-author-guard-compares-wrong-key", ["C04"], [], [(CORE + "messages/application.rs", "        self.verify_rumor_author(&rumor.pubkey, sender_credential)?;", "        self.verify_rumor_author(&event.pubkey, sender_credential)?;")]),
+    ("c04-stored-pubkey-from-wrapper", ["C04", "C02"], [], [(CORE + "messages/application.rs", "            pubkey: rumor.pubkey,", "            pubkey: event.pubkey,")]),
+    ("c04-id-not-verified", ["C04"], [], [(CORE + "messages/application.rs", """        rumor
+            .verify_id()
+            .map_err(|_e| Error::Message("Rumor id does not match its content".to_string()))?;
+""", "")]),
+    ("c05-nonadmin-any-commit", ["C05"], [], [(CORE + "messages/validation.rs", """                    (false, false) => {
+                        tracing::warn!(
+                            target: "mdk_core::messages::process_commit",
+                            "Received non-self-update commit from non-admin member at leaf index {:?}",
+                            leaf_index
+                        );
+                        Err(Error::CommitFromNonAdmin)
+                    }""", """                    (false, false) => {
+                        tracing::warn!(
+                            target: "mdk_core::messages::process_commit",
+                            "Received non-self-update commit from non-admin member at leaf index {:?}",
+                            leaf_index
+                        );
+                        Ok(())
+                    }""")]),
+    ("c05-whitelist-any-member-update", ["C05"], [], [(CORE + "messages/validation.rs", "            .all(|p| matches!(p.sender(), Sender::Member(idx) if idx == sender_leaf_index))", "            .all(|p| matches!(p.sender(), Sender::Member(_)))")]),
+    ("c06-memory-unsafe-allowed", ["C06"], [], [(MEM + "lib.rs", "#![forbid(unsafe_code)]", "#![allow(unsafe_code)]")]),
+    ("c07-retryable-blocked", ["C07"], [], [(CORE + "messages/process.rs", "            if is_failed || is_epoch_invalidated {", "            if is_failed || is_epoch_invalidated || processed.state == message_types::ProcessedMessageState::Retryable {")]),
+    ("c08-sync-skips-name", ["C08"], [], [(CORE + "groups.rs", "        stored_group.name = group_data.name;\n", "")]),
+    ("c08-own-merge-sync-only-for-self-update", ["C08"], [], [(CORE + "groups.rs", """        mls_group.merge_pending_commit(&self.provider)?;
+
+        // Sync the stored group metadata with the updated MLS group state
+        self.sync_group_metadata_from_mls(group_id)?;
+""", """        mls_group.merge_pending_commit(&self.provider)?;
+
+        // Sync the stored group metadata with the updated MLS group state
+        if !is_self_update {
+            self.sync_group_metadata_from_mls(group_id)?;
+        }
+""")]),
     ("c20-no-prune-after-hydration", ["C20"], [], [(CORE + "epoch_snapshots.rs", """        // Enforce retention limit after hydration
         while queue.len() > self.retention_count {
             if let Some(old_snap) = queue.pop_front() {
